@@ -10,6 +10,8 @@ CHECK = {
         "UploadOutputs may (but need not) fail when a declared output is a special file or lies below a non-directory; otherwise it must succeed",
         "an input root holding a non-directory where a parent directory of an output is needed contradicts the command: CreateParentDirectories may succeed (documented EEXIST tolerance) or fail, but must not touch anything else",
         "directory listings returned by the in-memory UploadableDirectory are sorted by name, as the real implementations do",
+        "I/O errors during the run are reported through the InstallHooks error logger after the outputs were produced; the fake CAS refuses Put/Get on a done context like a gRPC client; such a response may carry any non-OK status but must still list the outputs that exist",
+        "naive backend: a file rewritten in place between UploadFile's digest pass and upload pass may be left out of the result (upload fails), but no blob may be stored under a digest that its bytes do not hash to",
         "LocalBuildExecutor rig: execution time-outs never fire (fake clock); the fake runner creates stdout/stderr like bb_runner; input roots contain no special files",
         "naive backend: a real local file system under the driver's per-run scratch directory; virtual backend: FUSE handle allocator, case-sensitive names, sorted listings, in-memory file pool",
     ],
